@@ -1,0 +1,6 @@
+//go:build verif
+
+package index
+
+// VerifMergeMax reports the merge fan-in of the offline writer (verification harness only).
+func (s *WriterOffline) VerifMergeMax() int { return s.mergeMax }
